@@ -51,7 +51,14 @@ def cond_tree(rng, depth):
 
 
 def corr(c, tier, rng):
-    n = 50 if tier == "quick" else 400
+    corr_nested(c, tier, rng)
+    corr_factories(c, tier, rng)
+    scan_correspondence_hook(c, tier, rng)
+
+
+def corr_nested(c, tier, rng, n=None):
+    """nested Transformed (1-3 levels) and their merge_transforms() form: generated model vs real objects"""
+    n = n if n is not None else (50 if tier == "quick" else 400)
     lines, wants, infos = [], [], []
     base = StandardNormal()
     for i in range(n):
@@ -95,8 +102,14 @@ def corr(c, tier, rng):
             exp_pub = -math.inf if math.isnan(priv) else priv
             if not vlib.close(info["public"], exp_pub, **TOL):
                 c.mismatch("public-log_prob-vs-private", op=line, impl_public=info["public"], impl_private=priv)
+
+
+def scan_correspondence_hook(c, tier, rng):
     # ---- the layer stack of every premade flow is a Scan: C08.scan_eq_chain on the real side
     c01.scan_correspondence(c, tier, rng)
+
+
+def corr_factories(c, tier, rng):
     # ---- factories: orientation by structural introspection
     for name, mk in factories():
         for invert in (True, False):
@@ -170,6 +183,12 @@ def search(hints, tier, rng):
             for cd in (None, 2):
                 fl = perturb(mk(jr.PRNGKey(rng.randrange(1000)), cd, invert), rng)
                 wit += identities_violations(fl, f"{name}|invert={invert}|cond={cd}", rng, cd)
+    wit += nested_merge_violations(tier, rng)
+    return wit[:5]
+
+
+def nested_merge_violations(tier, rng):
+    wit = []
     # hand-built nested transformed distributions, 2 and 3 levels (merge_transforms must not change any method)
     for i in range(20 if tier == "quick" else 100):
         ts = [cond_tree(rng, 1) for _ in range(rng.choice([2, 3, 3]))]
